@@ -2371,6 +2371,10 @@ impl XmlElement {
                         }
                         parser::Reference::Entity(v) => {
                             let entity = context.entity(v)?;
+                            // WFC: Parsed Entity
+                            if entity.borrow().notation_name().is_some() {
+                                return Err(error::Error::InvalidData(v.to_string()));
+                            }
                             let entity =
                                 XmlUnexpandedEntityReference::node(entity, element_id, context);
                             element.borrow_mut().push_child(entity);
